@@ -242,4 +242,45 @@ impl TombstoneLog {
         Ok(())
 //@end
 }
+// ---- PageBuffer::locate: log page number -> (partition, byte offset inside it); partitions are concatenated in order
+pub struct PartitionT { pub sz: usize }
+impl PartitionT { pub fn size(&self) -> (r: usize) ensures r == self.sz { self.sz } }
+pub struct PageBufferLocT { pub partitions: Vec<PartitionT> }
+/// pages of the partitions before partition i
+pub open spec fn pages_before(parts: Seq<PartitionT>, i: int) -> int
+    decreases i
+{
+    if i <= 0 { 0 } else { pages_before(parts, i - 1) + (parts[i - 1].sz as u32 / 4096u32) as int }
+}
+impl PageBufferLocT {
+//@region foyer-storage/src/engine/block/tombstone.rs :: impl~^impl PageBuffer$/fn locate name=locate whole=1 sub=@break \((.*)\);@{ verif_ret = (\1); break; }@
+//@head
+    fn locate(&self, mut page: u32) -> (r: (usize, u64))
+        requires
+            // the page lies inside the log: page < total pages (established by calculate_slot_addr's `% pages`)
+            page < pages_before(self.partitions@, self.partitions@.len() as int),
+            self.partitions@.len() < usize::MAX,
+        ensures
+            r.0 < self.partitions@.len(), // @label partition_exists
+            pages_before(self.partitions@, r.0 as int) <= page < pages_before(self.partitions@, r.0 + 1), // @label page_belongs_to_that_partition
+            r.1 == 4096 * (page - pages_before(self.partitions@, r.0 as int)), // @label offset_is_page_offset_inside_the_partition
+//@prologue
+        let ghost old_page = page;
+        let mut verif_ret = (0usize, 0u64); // `break (a, b)` desugared: Verus has no break-with-value
+//@loop 1
+            invariant_except_break
+                partition < self.partitions@.len(), self.partitions@.len() < usize::MAX,
+                page as int + pages_before(self.partitions@, partition as int) == old_page as int,
+                old_page < pages_before(self.partitions@, self.partitions@.len() as int),
+            ensures verif_ret.0 < self.partitions@.len(),
+                pages_before(self.partitions@, verif_ret.0 as int) <= old_page < pages_before(self.partitions@, verif_ret.0 + 1),
+                verif_ret.1 == 4096 * (old_page - pages_before(self.partitions@, verif_ret.0 as int)),
+            decreases self.partitions@.len() - partition,
+//@before /if page < partition_pages/
+            proof { assert(PAGE == 4096); assert(PAGE as u64 * page as u64 == 4096 * (page as int)) by (nonlinear_arith) requires PAGE == 4096; }
+//@tail
+        verif_ret
+//@end
+}
+
 } // verus!
